@@ -142,6 +142,18 @@ def run_heap_family(prop, tier, seed, configs, scratch, assumptions, level_note)
         run_trace_validation(prop, tier, seed, scratch, cov, violations, TRACE_PROPS[prop])
     if not violations and prop == "C09" and not os.environ.get("VERIF_MEASURE"):
         run_slice_model(prop, tier, scratch, cov)
+    if not violations and prop == "C13" and not os.environ.get("VERIF_MEASURE"):
+        # wide native trees, one conversion after the other in one process (Go-side member sweep of the Native*/New*From composition)
+        out = scratch.path("nativetrees.json")
+        rc, so, se, wall = run_vh(vh, ["nativetrees", "-prop", prop, "-seed", str(seed), "-n", "4000" if tier == "quick" else "60000", "-out", out,
+                                       "-replaydir", scratch.sub("replays")], 1200)
+        s = json.load(open(out))
+        cov["evaluations"] += s.get("evaluations", 0)
+        cov["native_trees"] = dict(trees=s.get("native_trees"), distinct=s.get("distinct"), wall_s=round(wall, 1))
+        log("[native] %s: %d wide native trees converted and exported in one process, %.1fs" % (prop, s.get("native_trees", 0), wall))
+        for v in (s.get("violations") or []):
+            v["config"] = "nativetrees"
+            violations.append(v)
     return cov, violations
 
 
@@ -303,7 +315,8 @@ def configs_for(prop, tier):
             dict(name="nest-r3-l1", maxrefs=3, maxlen=1, nkeys=1, ops=["NewList", "NewListOf", "NewObject"] + LIST_MUT + LIST_DER,
                  arglits=[1], conc=["weird"], depth=3, walks=6000),
             # two values of one kind: Sort / Reverse histories change the order
-            dict(name="lists-sort", maxrefs=2, maxlen=3, scalars=[("int", 1), ("int", 2)], argrefs=False, slack=0,
+            # (under the extreme table the two tokens are MinInt and MaxInt: comparators that subtract overflow)
+            dict(name="lists-sort", maxrefs=2, maxlen=3, scalars=[("int", -4), ("int", 11)], argrefs=False, slack=0,
                  ops=["NewList2", "NewList3", "Sort", "Reverse", "Add", "Pop", "Replace", "SubList"], conc=["extreme"], depth=4, walks=3000, walklen=20),
         ]
         if q:
@@ -430,7 +443,7 @@ def configs_for(prop, tier):
         WO = ["NewList", "NewObject", "SetTF", "UnsetTF"]
         base = [
             dict(name="tfwrite-r3", maxrefs=3, nkeys=1, maxlen=2, scalars=[("int", 1)], lits=[("L", [("int", 7)])], arglits=[1],
-                 ops=WO, tfkeys=1, tfidx=1, tflen=2, tfread=2, conc=["tf", "long"], obs="tf,getters", depth=3, walks=6000, walklen=25, obsevery=2),
+                 ops=WO, tfkeys=1, tfidx=1, tflen=2, tfread=2, conc=["tf", "long"], derived=[0, 1], obs="tf,getters", depth=3, walks=6000, walklen=25, obsevery=2),
             # writes into lists whose element storage is shared with other lists (NewListOf, SubList, Concat)
             dict(name="tfwrite-shared", maxrefs=2, nkeys=1, maxlen=3, scalars=[("int", 1), ("int", 2)], argrefs=False, slack=0,
                  ops=["NewListOf", "NewList2", "SubList", "SetTF", "UnsetTF"], tfkeys=1, tfidx=2, tflen=1, tfread=1,
@@ -453,8 +466,9 @@ def configs_for(prop, tier):
             dict(name="native-r3", maxrefs=3, nkeys=1, maxlen=2, scalars=[("int", 1)], ops=NO,
                  conc=["weird", "long"], obs="getters", depth=3, walks=10000, walklen=30),
             # a list directly inside a list that itself holds a container; repeated conversions around a nested change
+            # (also with user-derived containers inside: they are Lists/Objects like any other and must be converted)
             dict(name="native-nest", maxrefs=6, buildrefs=3, nkeys=1, maxlen=1, scalars=[("int", 1)], ops=["NewList", "NewObject", "NativeSlice", "NativeDict"],
-                 conc=["plain"], obs="getters", depth=5, walks=2000, walklen=8),
+                 conc=["plain"], derived=[0, 1], obs="getters", depth=5, walks=2000, walklen=8),
             dict(name="native-again", maxrefs=6, buildrefs=2, nkeys=1, maxlen=2, scalars=[("int", 1)], ops=["NewList", "NewObject", "Add", "NativeSlice", "NativeDict"],
                  conc=["plain"], obs="getters", depth=5, walks=3000, walklen=10),
             # conversions of derivation results (Concat of a flat list with a list holding containers, SubList ...)
